@@ -7,6 +7,7 @@ one kind of rewrite at a time, edits that cannot change behaviour:
 * ``rename-params``   every parameter gets a new name (keyword call sites in
                       the package are updated; only for functions whose simple
                       name is unique in the package)
+* ``rename-function`` the function gets a new name, every reference follows
 * ``flip-if``         ``if c: A else: B`` -> ``if not c: B else: A``
 * ``swap-compare``    ``a < b`` -> ``b > a`` (and ``==``/``!=`` operands)
 * ``log-first``       a debug-log statement at the start of the function
@@ -380,6 +381,30 @@ def rename_params_everywhere(tree_by_mod: dict[str, ast.Module], relpath: str,
     return tree_by_mod
 
 
+def rename_function_everywhere(tree_by_mod: dict[str, ast.Module],
+                               f: ast.FunctionDef) -> bool:
+    """Rename ``f`` (and every reference by that simple name) to
+    ``<name>_rn`` across the package."""
+    old, new = f.name, f.name + SUFFIX
+    if old.startswith("__"):
+        return False
+    for mod in tree_by_mod.values():
+        for n in ast.walk(mod):
+            if isinstance(n, (ast.FunctionDef, ast.AsyncFunctionDef)) \
+                    and n.name == old:
+                n.name = new
+            elif isinstance(n, ast.Name) and n.id == old:
+                n.id = new
+            elif isinstance(n, ast.Attribute) and n.attr == old:
+                n.attr = new
+            elif isinstance(n, ast.alias):
+                if n.name == old:
+                    n.name = new
+                if n.asname == old:
+                    n.asname = new
+    return True
+
+
 TRANSFORMS: dict[str, Callable[[ast.FunctionDef, ast.Module], bool]] = {
     "rename-locals": t_rename_locals,
     "flip-if": t_flip_if,
@@ -477,6 +502,20 @@ def generate(props: list[str], root: Path, only: Optional[set[str]] = None
                 continue
             jobs.append((props, str(root), {rel: src},
                          q.split(":")[-1], tname))
+        if (not only or "rename-function" in only) and len(
+                index.by_simple_name.get(fi.node.name, [])) == 1:
+            trees = {m.relpath: ast.parse(m.src)
+                     for m in index.modules.values()}
+            f = _locate(trees[rel], fi.node.name, fi.node.lineno)
+            if f is not None:
+                before = {r: ast.dump(t) for r, t in trees.items()}
+                if rename_function_everywhere(trees, f):
+                    files = {r: ast.unparse(ast.fix_missing_locations(t))
+                             + "\n" for r, t in trees.items()
+                             if ast.dump(t) != before[r]}
+                    if files:
+                        jobs.append((props, str(root), files,
+                                     q.split(":")[-1], "rename-function"))
         if (not only or "rename-params" in only) and fi.cls is None:
             trees = {m.relpath: ast.parse(m.src)
                      for m in index.modules.values()}
